@@ -370,8 +370,100 @@ func c18RawEnumTargets(c *Ctx, r *Rng) {
 	}
 }
 
+// Results.Auto(): the first block binds the targets; every later block — with rows or without (a header block) — whose
+// columns differ in name, type or number must be refused, and the bound targets keep receiving the blocks that match
+func c18AutoRebind(c *Ctx, r *Rng) {
+	R := c.R
+	enc := func(names, types []string, rows int) ([]byte, []blockCol) {
+		i := 0
+		cols, err := buildCols(r, len(types), rows, genOpts{}, func() *TNode { t, _ := parseCH(types[i]); i++; return t })
+		if err != nil {
+			return nil, nil
+		}
+		for j := range cols {
+			cols[j].name = names[j]
+		}
+		var buf proto.Buffer
+		blk := proto.Block{Columns: len(cols), Rows: rows}
+		if blk.EncodeRawBlock(&buf, 54460, inputOf(cols)) != nil {
+			return nil, nil
+		}
+		return buf.Buf, cols
+	}
+	type sch struct{ names, types []string }
+	first := sch{[]string{"a", "b"}, []string{"UInt8", "String"}}
+	others := []struct {
+		why string
+		s   sch
+	}{
+		{"renamed column", sch{[]string{"a", "c"}, []string{"UInt8", "String"}}},
+		{"another type", sch{[]string{"a", "b"}, []string{"String", "String"}}},
+		{"look-alike type", sch{[]string{"a", "b"}, []string{"Int8", "String"}}},
+		{"fewer columns", sch{[]string{"a"}, []string{"UInt8"}}},
+		{"more columns", sch{[]string{"a", "b", "c"}, []string{"UInt8", "String", "UInt8"}}},
+		{"columns swapped", sch{[]string{"b", "a"}, []string{"String", "UInt8"}}},
+	}
+	for _, firstRows := range []int{0, 3} {
+		for _, o := range others {
+			for _, secondRows := range []int{0, 2} {
+				for _, prefilled := range []bool{false, true} {
+					var res proto.Results
+					if prefilled {
+						res = proto.Results{{Name: "a", Data: new(proto.ColUInt8)}, {Name: "b", Data: new(proto.ColStr)}}
+					}
+					target := res.Auto()
+					b1, _ := enc(first.names, first.types, firstRows)
+					b2, _ := enc(o.s.names, o.s.types, secondRows)
+					b3, c3 := enc(first.names, first.types, 2)
+					if b1 == nil || b2 == nil || b3 == nil {
+						continue
+					}
+					cs := map[string]any{"first": first, "first_rows": firstRows, "second": o.s, "second_rows": secondRows, "difference": o.why, "prefilled_results": prefilled}
+					R.Case(fmt.Sprintf("auto-rebind|%d|%s|%d|%v", firstRows, o.why, secondRows, prefilled), true)
+					R.Count("shape:auto-rebind")
+					var g1, g2, g3 proto.Block
+					var e1, e2, e3 error
+					if p, msg := safely(func() {
+						e1 = g1.DecodeRawBlock(proto.NewReader(bytes.NewReader(b1)), 54460, target)
+						if e1 == nil {
+							e2 = g2.DecodeRawBlock(proto.NewReader(bytes.NewReader(b2)), 54460, target)
+						}
+					}); p {
+						R.Violate(Violation{Kind: "oracle", Key: "bind-panic", What: "DecodeRawBlock through Results.Auto() panicked: " + msg, Case: cs})
+						continue
+					}
+					if e1 != nil {
+						R.Count("auto-rebind:first-block-rejected")
+						continue
+					}
+					if e2 == nil {
+						R.Violate(Violation{Kind: "oracle", Key: "bind-mismatch-accepted", What: fmt.Sprintf("targets bound by a block (a UInt8, b String) accepted a later block with %s (%v %v, %d rows) without an error", o.why, o.s.names, o.s.types, secondRows), Case: cs})
+						continue
+					}
+					// the bound targets are still the ones that receive matching blocks
+					if p, msg := safely(func() { e3 = g3.DecodeRawBlock(proto.NewReader(bytes.NewReader(b3)), 54460, target) }); p {
+						R.Violate(Violation{Kind: "oracle", Key: "bind-panic", What: "DecodeRawBlock through Results.Auto() panicked: " + msg, Case: cs})
+						continue
+					}
+					if e3 != nil || len(res) != 2 {
+						R.Count("auto-rebind:matching-block-rejected-after-refusal")
+						continue
+					}
+					for i := range c3 {
+						if e, sz := checkColumn(res[i].Data.(proto.Column), c3[i].cn); e != nil && !sz {
+							R.Violate(Violation{Kind: "oracle", Key: "bind-wrong-data", What: fmt.Sprintf("after a refused block, a matching block was bound but target %d does not hold its rows: %v", i, e), Case: cs})
+							break
+						}
+					}
+				}
+			}
+		}
+	}
+}
+
 func runC18(c *Ctx) {
 	R := c.R
+	defer c18AutoRebind(c, c.Rng.Fork())
 	defer c18EnumRedefined(c, c.Rng.Fork())
 	defer c18RawEnumTargets(c, c.Rng.Fork())
 	defer c18Adopt(c, c.Rng.Fork())
